@@ -638,7 +638,8 @@ pub(crate) fn is_terminal_snippet_clean(text: &str) -> bool {
 /// We:
 /// - Replace ASCII control bytes (except '\n' and '\t') and DEL with `?` (a visible
 ///   placeholder: a run of blanks at the start of the error line would be trimmed by the
-///   snippet renderer, which then misplaces a marker that points into that run).
+///   snippet renderer, which then misplaces a marker that points into that run); the CR of
+///   a CRLF line break becomes a blank.
 /// - Replace UTF-8 encoded C1 controls (0xC2 0x80..=0x9F) with NBSP (0xC2 0xA0).
 ///
 /// This breaks ANSI/OSC escapes by neutralizing their introducers (ESC or C1).
@@ -646,10 +647,13 @@ pub(crate) fn sanitize_terminal_snippet_preserve_len(s: String) -> String {
     let mut bytes = s.into_bytes();
 
     // ASCII C0 controls + DEL
-    for x in &mut bytes {
-        let b = *x;
+    for i in 0..bytes.len() {
+        let b = bytes[i];
         if (b < 0x20 && b != b'\n' && b != b'\t') || b == 0x7F {
-            *x = b'?';
+            // The CR of a CRLF line break is part of the break, not of the line: a blank
+            // at the end of the line rather than a visible placeholder.
+            let crlf = b == b'\r' && bytes.get(i + 1) == Some(&b'\n');
+            bytes[i] = if crlf { b' ' } else { b'?' };
         }
     }
 
